@@ -38,6 +38,8 @@ def cases(tier, seed, ctx=None):
         for sp in specs(n):
             hdrs = [] if sp is None else [[rng.choice([b"Range", b"range", b"RANGE"]), sp]]
             yield ("fs", [tree, b"@BASE@/root", b"f.bin", hdrs, ver, [8, 0, c]], "small")
+            if rng.chance(1, 6):
+                yield ("fs", [tree, b"@BASE@/root", b"f.bin", hdrs + [[b"Content-Length", b"0"]], ver, [8, 0, c]], "small-with-length")
     big = [65535, 65536, 65537] + ([131072, 131073, 196608] if tier != "quick" else [])
     for n in big:
         c = content(n)
@@ -46,6 +48,8 @@ def cases(tier, seed, ctx=None):
                    b"bytes=0-65535", b"bytes=65535-", b"bytes=-%d" % n]:
             hdrs = [] if sp is None else [[b"Range", sp]]
             yield ("fs", [tree, b"@BASE@/root", b"f.bin", hdrs, ver, [8, 0, c]], "block-boundary")
+            # the request itself declares a (zero-length / absent) body: the transfer must not care
+            yield ("fs", [tree, b"@BASE@/root", b"f.bin", hdrs + [[b"Content-Length", rng.choice([b"0", b"0", b"3"])]], ver, [8, 0, c]], "block-boundary-with-length")
     # listings
     names = [(b"a.txt", 0), (b"B.txt", 0), (b"sub", 1), (b"Alpha", 1), (b"x<y>&z.txt", 0), (b'q"uote', 0), (b"zeta", 1), (b"m m", 0)]
     for k in range(0, len(names) + 1):
